@@ -29,7 +29,8 @@ CONSTANTS Shapes, M1Decls, M2Decls, RootM1, RootM2, RecordHist
 
 Absent == [k |-> "absent"]
 Undec == [k |-> "undec"]
-\* sets: the method body assigns y := 1 (a cascade); only used for m1 with dependencies that exclude y
+\* sets: the method body assigns y := 1 and then y := 2 (a cascade of two assignments, each dispatched on its own);
+\* only used for m1 with dependencies that exclude y
 Dec(deps, oninit, queued) == [k |-> "dec", deps |-> deps, oninit |-> oninit, queued |-> queued, sets |-> FALSE]
 DecS(deps, oninit) == [k |-> "dec", deps |-> deps, oninit |-> oninit, queued |-> FALSE, sets |-> TRUE]
 
@@ -52,7 +53,9 @@ Program == <<
   [op |-> "batch", items |-> <<<<"x", 1>>, <<"x", 0>>, <<"y", 0>>>>],   \* x changes twice, y once
   [op |-> "batch", items |-> <<<<"x", 0>>, <<"y", 0>>>>],        \* nothing changes
   [op |-> "batch", items |-> <<<<"x", 1>>, <<"bounds", 2>>>>],   \* a value and an attribute
-  [op |-> "set", items |-> <<<<"bounds", 2>>>>]                  \* same attribute value
+  [op |-> "set", items |-> <<<<"bounds", 2>>>>],                 \* same attribute value
+  [op |-> "batchraise", items |-> <<<<"x", 0>>>>],               \* the batch body assigns, then an exception escapes it
+  [op |-> "set", items |-> <<<<"x", 1>>>>]                       \* ... after which dispatch is immediate again
 >>
 
 VARIABLES shape, decl, icls, pc, val, hist
@@ -118,12 +121,13 @@ Init == /\ shape \in Shapes
         /\ hist = <<>>
 
 \* the cascade: when m1 runs and its body assigns y := 1, the methods depending on y run once more
-CascadeM2(c, m1runs, y) == m1runs /\ Setter(c) /\ y # 1 /\ "y" \in Deps(c, "m2")
+\* (how many of the two assignments y := 1; y := 2 change y: the second always does)
+CascadeM2(c, m1runs, y) == IF m1runs /\ Setter(c) /\ "y" \in Deps(c, "m2") THEN (IF y # 1 THEN 2 ELSE 1) ELSE 0
 InitCalls(c) ==
   LET m1runs == Watched(c, "m1") /\ Eff(c, "m1").oninit IN
   [m1 |-> IF m1runs THEN 1 ELSE 0,
-   m2 |-> (IF Watched(c, "m2") /\ Eff(c, "m2").oninit THEN 1 ELSE 0) + (IF CascadeM2(c, m1runs, 0) THEN 1 ELSE 0)]
-InitY(c) == IF Watched(c, "m1") /\ Eff(c, "m1").oninit /\ Setter(c) THEN 1 ELSE 0
+   m2 |-> (IF Watched(c, "m2") /\ Eff(c, "m2").oninit THEN 1 ELSE 0) + CascadeM2(c, m1runs, 0)]
+InitY(c) == IF Watched(c, "m1") /\ Eff(c, "m1").oninit /\ Setter(c) THEN 2 ELSE 0
 
 InitRec == [a |-> "init", shape |-> shape, decl |-> decl, icls |-> icls,
             mdeps |-> [m \in {"m1", "m2"} |-> Deps(icls, m)],
@@ -140,9 +144,9 @@ Step ==
          after == Apply(v0, o.items)
          inv == {m \in {"m1", "m2"} : Deps(icls, m) \cap {SpecOf(n) : n \in ChangedIn(v0, o.items)} # {}}
          casc == CascadeM2(icls, "m1" \in inv, after.y)
-         after2 == IF "m1" \in inv /\ Setter(icls) THEN [after EXCEPT !.y = 1] ELSE after
+         after2 == IF "m1" \in inv /\ Setter(icls) THEN [after EXCEPT !.y = 2] ELSE after
          calls == [m1 |-> IF "m1" \in inv THEN 1 ELSE 0,
-                   m2 |-> (IF "m2" \in inv THEN 1 ELSE 0) + (IF casc THEN 1 ELSE 0)]
+                   m2 |-> (IF "m2" \in inv THEN 1 ELSE 0) + casc]
          mixed == {m \in {"m1", "m2"} :
                      Cardinality({g \in Groups(Deps(icls, m)) :
                                      g \cap Deps(icls, m) \cap {SpecOf(n) : n \in ChangedIn(v0, o.items)} # {}}) > 1}
